@@ -49,4 +49,46 @@ def readBndItemsG (cd : Codec) (h : Hdr) (isCon : Bool) (tbl : List BndCase) : N
         else .error .complForVar
     | _ => .error .expectedBound
 
+/-! ## column sizes driven by the extracted statements -/
+
+/-- state of the two `int` variables (non-negative: both come from `ReadUInt`; `a -= b` is only reached after `a < b` was
+    rejected in the real block — a block without that guard would subtract below zero, here truncated, and no longer equal the model) -/
+def CStmt.run : List CStmt → Nat × Nat → Except Err (Nat × Nat)
+  | [], st => .ok st
+  | s :: r, (size, prev) =>
+    let get := fun (v : CVar) => match v with | .size => size | .prev => prev
+    let put := fun (v : CVar) (x : Nat) => match v with | .size => (x, prev) | .prev => (size, x)
+    match s with
+    | .errIfLt a b => if get a < get b then .error .invalidColOffset else CStmt.run r (size, prev)
+    | .sub a b => CStmt.run r (put a (get a - get b))
+    | .add a b => CStmt.run r (put a (get a + get b))
+    | .set a b => CStmt.run r (put a (get b))
+
+/-- `ReadColumnSizes<CUMULATIVE>` items with the `if (CUMULATIVE)` block given by `stmts` -/
+def readColItemsG (stmts : List CStmt) (cum : Bool) : Nat → Nat → List Tok → R (List Ev)
+  | _, 0, ts => .ok ([], ts)
+  | prev, n + 1, ts =>
+    match readUInt ts with
+    | .error e => .error e
+    | .ok (s, ts) =>
+      match (if cum then CStmt.run stmts (s, prev) else .ok (s, prev)) with
+      | .error e => .error e
+      | .ok (size, prev') =>
+        match readEol ts with
+        | .error e => .error e
+        | .ok ts =>
+          match readColItemsG stmts cum prev' n ts with
+          | .error e => .error e
+          | .ok (l, ts) => .ok (Ev.cadd size :: l, ts)
+
+/-- `ColSizeWriter::Write` × n for writer kind `kind`, with the `switch(kind_)` cases given by `cases` -/
+def wColItemsG (cases : List ColWriteCase) (kind : Nat) : Nat → List Nat → List Tok
+  | _, [] => []
+  | sum, s :: r =>
+    match cases.find? (fun c => c.kind == kind) with
+    | none => []          -- `default: assert(0)`
+    | some c =>
+      let sum' := if c.accumulates then sum + s else sum
+      [.int (if c.printsSum then (sum' : Int) else (s : Int)), .eol] ++ wColItemsG cases kind sum' r
+
 end MpVerif.C03
